@@ -30,7 +30,7 @@ ASSUMPTIONS = [
     'payload characters under xml/xhtml are XML 1.0 Chars without CR (finding C01-xml-unrepresentable); attribute payloads under xml/xhtml '
     'carry no TAB/LF (XML attribute-value normalisation, finding C01-attr-ws-xml)',
     'strip_whitespace=True: text is compared after the documented whitespace normalisation (trailing blanks before a newline, runs of newlines)',
-    'no script/style under html, no CDATA, no xml:space/pre/textarea (raw-text and cache defects belong to work package C08/C09)',
+    'no script/style under html, no CDATA, no xml:space (raw-text and cache defects belong to work package C08/C09)',
     'operands of Markup operators are str, Markup or objects with __html__ (domain of C18); boolean attributes and prefixed attribute names are not generated',
     'py:attrs values that are blank after trimming are not generated (finding C01-attrs-blank-dropped)',
 ]
@@ -142,7 +142,7 @@ def oracle_case(case):
     except Exception:
         # not a case of the grammar (a shrinking step, a hand-written replay): the oracle does not judge it
         return None
-    want0 = G.coalesce(G.first_choice(exp), case['strip'])
+    want0 = G.coalesce(G.first_choice(exp), case['strip'], case['method'])
     try:
         out = render_case(case)
     except Exception as e:
@@ -152,7 +152,7 @@ def oracle_case(case):
     except Exception as e:
         return bad('the output is not well-formed for the independent parser (%s: %s)' % (type(e).__name__, str(e)[:100]),
                    want0, out[:600])
-    if G.match_alts(exp, got, case['strip']):
+    if G.match_alts(exp, got, case['strip'], case['method']):
         return None
     what = 'element structure / payload of the re-parsed output differs from the template skeleton'
     w = want0
